@@ -77,6 +77,7 @@ func GenWF(o WFOpts) *rapid.Generator[*Spec] {
 		}
 		b.build()
 		b.s.JointSets = b.pct(20, "jointsets")
+		b.s.SetsInInject = b.pct(30, "setsininject")
 		if o.Names > 0 && b.pct(o.Names, "names") {
 			ApplyNames(t, b.s)
 		}
@@ -856,6 +857,29 @@ func (b *wfBuilder) makeSetsAndInjectors() {
 			}
 		}
 		in.Args = b.shuffle(args)
+		// extra parameters the result does not depend on (allowed); some implement an
+		// interface the injector binds, so that a lookup by assignability would pick them
+		if b.pct(25, "extraparams") {
+			for _, i := range idxs {
+				nd := b.nodes[i]
+				if (nd.kind == "bind" || nd.kind == "ivalue") && b.pct(60, "implparam") {
+					var ms []Method
+					for _, mn := range IfaceMethods(b.s, nd.t) {
+						ms = append(ms, Method{Name: mn})
+					}
+					if len(ms) == 0 {
+						continue
+					}
+					di := b.addDecl(Decl{Pkg: 0, Name: fmt.Sprintf("X%dI%d", k, i), Form: "struct", Fields: []SField{{Name: "Tok", T: Basic("int")}}, Methods: ms})
+					in.Params = append([]Param{{Name: fmt.Sprintf("x%d", i), T: Named(di)}}, in.Params...)
+					break
+				}
+			}
+			if b.pct(50, "plainextraparam") {
+				di := b.addDecl(Decl{Pkg: 0, Name: fmt.Sprintf("X%dP", k), Form: "struct", Fields: []SField{{Name: "Tok", T: Basic("int")}}})
+				in.Params = append([]Param{{Name: fmt.Sprintf("xp%d", k), T: Ptr(Named(di))}}, in.Params...)
+			}
+		}
 		// parameter naming style
 		switch b.pick([]string{"named", "named", "named", "unnamed", "blank"}, "paramstyle") {
 		case "unnamed":
